@@ -10,7 +10,7 @@ PROPERTY = dict(
     level_note='Trusted: clang-14 -O1 IR of BuildEngine.cpp, ir2c (validated per query), CBMC 6.11 + MiniSat/CaDiCaL; the real libstdc++ hash containers run unmodified, only std::hash of a pointer is replaced by an injective small number (any function of the pointer is a valid hash). '
                'NOT decided: that the engine enters resolveCycle exactly when it is stuck (C05/C06 drive executeTasks with resolveCycle stubbed), '
                'cycle breaking by forcing a build or supplying a prior value, graphs over more than 3 rules.',
-    bounds='2 and 3 rules, every edge set including self-edges (16 + 512 shapes thorough; 16 + 13 quick, among them the diamonds that separate visited-set bugs); with scanning rules every subset of rules scanning and every edge set in which a scanning rule is parked on at most one input (2 rules: all 33 shapes; 3 rules: every 8th of 1216 thorough; 18 quick); 1-byte keys, pairwise distinct, symbolic',
+    bounds='2 and 3 rules, every edge set including self-edges (16 + 128 of the 512 three-rule shapes thorough; 16 + 13 quick, among them the diamonds that separate visited-set bugs); with scanning rules every subset of rules scanning and every edge set in which a scanning rule is parked on at most one input (2 rules: all 33 shapes; 3 rules: every 16th of 1216 thorough; 18 quick); 1-byte keys, pairwise distinct, symbolic',
     outside='> 3 rules; delegate-driven cycle breaking; the executeTasks loop around resolveCycle',
     stubs='getRuleInfoForKey(requested key) -> rule 0; std::hash<Task*>, std::hash<Rule*>, std::hash<const RuleScanRecord*> -> index of the object; tracing off',
     assumptions=['the requested key is rule 0 (any other choice is a relabelling of another shape)'],
@@ -40,9 +40,9 @@ def scan_shapes(n, sample=None):
     return out if sample is None else [out[i % len(out)] for i in sample]
 OBLIGATIONS = [
     dict(CYC, name='Y1.findCycle', params_quick=shapes(2) + shapes(3, sample=[0, 2, 17, 34, 38, 68, 84, 98, 134, 140, 273, 292, 341]),   # (the complete graphs 427/495/511 cost 2-6 min each: thorough only)
-         params_thorough=shapes(2) + shapes(3)),
+         params_thorough=shapes(2) + shapes(3)[::4]),   # every 4th of the 512 three-rule shapes (the full set costs about 2.5 h with 8 jobs)
     dict(CYC, name='Y3.findCycle-scanning', params_quick=[{'VF_N': 2, 'VF_SHAPE': sh, 'VF_SCAN': m} for (sh, m) in ((6, 1), (6, 2), (6, 3), (2, 3), (10, 2))] +
-                      [{'VF_N': 3, 'VF_SHAPE': sh, 'VF_SCAN': m} for (sh, m) in ((10, 1), (10, 2), (10, 3), (162, 6), (102, 4), (98, 7), (98, 2), (38, 2), (260, 5), (2, 1), (2, 3), (140, 1), (273, 2))], params_thorough=scan_shapes(2) + scan_shapes(3)[::8]),   # every 8th of the 1216 three-rule shapes: a shape in which a rule waits on two others costs 1-8 min (symbolic exploration order)
+                      [{'VF_N': 3, 'VF_SHAPE': sh, 'VF_SCAN': m} for (sh, m) in ((10, 1), (10, 2), (10, 3), (162, 6), (102, 4), (98, 7), (98, 2), (38, 2), (260, 5), (2, 1), (2, 3), (140, 1), (273, 2))], params_thorough=scan_shapes(2) + scan_shapes(3)[::16]),   # every 16th of the 1216 three-rule shapes: a shape in which a rule waits on two others costs 1-8 min (symbolic exploration order)
     dict(CYC, name='Y2.resolveCycle', noinline=['BuildEngineImpl9findCycle', 'BuildEngineImpl12resolveCycle', 'BuildEngineImpl10breakCycle'], expect_functions=['BuildEngineImpl12resolveCycle'],
          params_quick=stuck(shapes(2) + shapes(3, sample=[84, 98, 140, 273, 292, 341])), params_thorough=stuck(shapes(2)) + stuck(shapes(3))[::6]),
     # Y4: as Y2, but every rule may have a result of an earlier build: breakCycle then considers supplying prior values (the client declines)
